@@ -1,5 +1,171 @@
 import ZoektModel.Basic.Proto
+import ZoektModel.C09.Spec
 namespace ZoektModel.C09
-/-- stub: no model driver for C09 yet -/
-def main : IO Unit := ZoektModel.Proto.runLines (fun _ => ZoektModel.Proto.badCase "no model driver for C09")
+open ZoektModel ZoektModel.Proto
+
+/-! line protocol of C09 (see harness/cmd/c09/main.go).  Byte strings are hex (`-` = empty); lists of byte strings
+are comma separated with `_` for the empty list; pairs are `a:b`. -/
+
+def hexList? (s : String) : Option (List Bytes) :=
+  if s == "_" then some [] else (s.splitOn ",").mapM hexToBytes?
+
+def showHexList (l : List Bytes) : String :=
+  if l.isEmpty then "_" else ",".intercalate (l.map bytesToHex)
+
+def pairs? (s : String) : Option (List (Nat × Nat)) :=
+  if s == "-" || s == "_" then some [] else
+  (s.splitOn ",").mapM fun e =>
+    match e.splitOn ":" with
+    | [a, b] => do pure (← a.toNat?, ← b.toNat?)
+    | _ => none
+
+def showPairs (l : List (Nat × Nat)) : String := showList (fun p => s!"{p.1}:{p.2}") l
+
+def sym? (s : String) : Option (Option Sym) :=
+  if s == "nil" then some none else
+  match s.splitOn "." with
+  | [a, b, c] => do pure (some ⟨← hexToBytes? a, ← hexToBytes? b, ← hexToBytes? c⟩)
+  | _ => none
+
+def syms? (s : String) : Option (List (Option Sym)) :=
+  if s == "_" then some [] else (s.splitOn ",").mapM sym?
+
+def showSym : Option Sym → String
+  | none => "nil"
+  | some y => s!"{bytesToHex y.kind}.{bytesToHex y.parent}.{bytesToHex y.parentKind}"
+
+def showSyms (l : List (Option Sym)) : String := if l.isEmpty then "_" else ",".intercalate (l.map showSym)
+
+/-- doc: `name;content;branches;subrepo;language;langHint;category;catHint;skip;symbols;symMeta` -/
+def doc? (s : String) : Option Doc :=
+  match s.splitOn ";" with
+  | [n, c, br, sr, lg, lh, cat, ch, sk, sy, sm] => do
+    let metas ← syms? sm
+    pure { name := ← hexToBytes? n, content := ← hexToBytes? c, branches := ← hexList? br, subRepoPath := ← hexToBytes? sr,
+           language := ← hexToBytes? lg, langHint := ← hexToBytes? lh, category := ← cat.toNat?, catHint := ← ch.toNat?,
+           skip := ← sk.toNat?, symbols := ← pairs? sy, symMeta := ← metas.mapM id }
+  | _ => none
+
+def docs? (s : String) : Option (List Doc) :=
+  if s == "_" then some [] else (s.splitOn "|").mapM doc?
+
+def repo? (s : String) : Option Repo :=
+  match s.splitOn ";" with
+  | [b, k] => do pure ⟨← hexList? b, ← hexList? k⟩
+  | _ => none
+
+/-- read-back doc: `name;content;branches;checksum;language;category;subrepo;sections;runeSections;symbols` -/
+def showOut (o : DocOut) : String :=
+  ";".intercalate [bytesToHex o.name, bytesToHex o.content, showHexList o.branches, bytesToHex o.checksum,
+    bytesToHex o.language, toString o.category, bytesToHex o.subRepoPath, showPairs o.sections,
+    showPairs o.runeSections, showSyms o.symbols]
+
+def out? (s : String) : Option DocOut :=
+  match s.splitOn ";" with
+  | [n, c, br, ck, lg, cat, sr, se, rs, sy] => do
+    pure { name := ← hexToBytes? n, content := ← hexToBytes? c, branches := ← hexList? br, checksum := ← hexToBytes? ck,
+           language := ← hexToBytes? lg, category := ← cat.toNat?, subRepoPath := ← hexToBytes? sr, sections := ← pairs? se,
+           runeSections := ← pairs? rs, symbols := ← syms? sy }
+  | _ => none
+
+def showOuts (l : List DocOut) : String := if l.isEmpty then "_" else "|".intercalate (l.map showOut)
+def outs? (s : String) : Option (List DocOut) := if s == "_" then some [] else (s.splitOn "|").mapM out?
+
+def showU32s (l : List UInt32) : String := showNatList (l.map (·.toNat))
+def showU16s (l : List UInt16) : String := showNatList (l.map (·.toNat))
+
+/-- index of the first document `Add` refuses, with the outcome class -/
+def addAllIdx (repo : Repo) : SB → List Doc → Nat → Sum (Nat × String) SB
+  | b, [], _ => .inr b
+  | b, d :: r, i =>
+    match b.add repo d with
+    | .ok b' => addAllIdx repo b' r (i + 1)
+    | o => .inl (i, o.cls)
+
+def showPS (ps : PostingSections) (pb : PB) : String :=
+  s!"ng={showNatList ps.ngrams}/po={showHexList ps.postings}/ro={bytesToHex ps.runeOffsets}/er={bytesToHex ps.endRunes}/pl={showBool pb.plain}/eb={pb.endByte}/rc={pb.runeCount}"
+
+/-- `pb` script: `a:<hex>:<secs>` add, `r` reset, `w` write; stops at the first add that fails -/
+def runPB : PB → List String → List String → List String
+  | _, [], acc => acc.reverse
+  | pb, cmd :: rest, acc =>
+    if cmd == "r" then runPB pb.reset rest ("r" :: acc)
+    else if cmd == "w" then runPB pb rest (showPS pb.write pb :: acc)
+    else match cmd.splitOn ":" with
+      | "a" :: h :: secParts =>
+        match hexToBytes? h, pairs? (":".intercalate secParts) with
+        | some data, some secs =>
+          match pb.add data secs with
+          | .ok (pb', rs) => runPB pb' rest (s!"ok:{showPairs rs}" :: acc)
+          | o => (o.cls :: acc).reverse
+        | _, _ => ("?" :: acc).reverse
+      | _ => ("?" :: acc).reverse
+
+def handle (line : String) : String :=
+  let (inp, impl) := splitCase line
+  match fields inp with
+  | ["enc32", l] => match natList? l with
+    | some ns => answer (bytesToHex (toSizedDeltas (u32s ns)))
+    | none => badCase "enc32"
+  | ["dec32", h] => match hexToBytes? h with
+    | some b => answer (match fromSizedDeltas b with | some l => showU32s l | none => "malformed")
+    | none => badCase "dec32"
+  | ["decraw", h] => match hexToBytes? h with
+    | some b => answer (match fromDeltas b with | some l => showU32s l | none => "malformed")
+    | none => badCase "decraw"
+  | ["enc16", l] => match natList? l with
+    | some ns => answer (bytesToHex (toSizedDeltas16 (ns.map UInt16.ofNat)))
+    | none => badCase "enc16"
+  | ["dec16", h] => match hexToBytes? h with
+    | some b => answer (match fromSizedDeltas16 b with | some l => showU16s l | none => "malformed")
+    | none => badCase "dec16"
+  | ["msec", p] => match pairs? p with
+    | some ps => answer (bytesToHex (marshalDocSections (toSecs ps)))
+    | none => badCase "msec"
+  | ["usec", h] => match hexToBytes? h with
+    | some b => answer (match unmarshalDocSections b with | some l => showPairs (secPairs l) | none => "malformed")
+    | none => badCase "usec"
+  | ["rt32", l] =>
+    -- round trip through the implementation: impl = fromSizedDeltas(toSizedDeltas(l)); the statement is impl = l
+    match natList? l with
+    | some ns =>
+      let m := match fromSizedDeltas (toSizedDeltas (u32s ns)) with | some r => showU32s r | none => "malformed"
+      if impl == showNatList ns then answer m else specFail m "deltas-roundtrip"
+    | none => badCase "rt32"
+  | ["check", c, mx, al] => match hexToBytes? c, mx.toNat?, bool? al with
+    | some b, some m, some a => answer (toString (docCheck b m a))
+    | _, _, _ => badCase "check"
+  | ["bskip", sm, tm, al, gv, c] => match sm.toNat?, tm.toNat?, bool? al, gv.toNat?, hexToBytes? c with
+    | some s, some t, some a, some g, some b => answer (toString (builderSkip s t a g b))
+    | _, _, _, _, _ => badCase "bskip"
+  | ["crc", c] => match hexToBytes? c with
+    | some b => answer (bytesToHex (be 8 (crc64 b).toNat))
+    | none => badCase "crc"
+  | ["pb", script] => answer ("~".intercalate (runPB PB.fresh (script.splitOn "~") []))
+  | ["shard", r, ds, mj, rj] =>
+    match repo? r, docs? ds, hexToBytes? mj, hexToBytes? rj with
+    | some repo, some docs, some metaJSON, some repoJSON =>
+      match addAllIdx repo (SB.new PB.fresh PB.fresh) docs 0 with
+      | .inl (i, c) => answer s!"{c}@{i}"
+      | .inr b =>
+        let (file, secs) := b.write metaJSON repoJSON
+        let model := match readAll secs repo b.languageMap with
+          | some outs => s!"file={bytesToHex file} docs={showOuts outs}"
+          | none => s!"file={bytesToHex file} docs=unreadable"
+        -- the statement, on what the implementation read back
+        match fields impl with
+        | [_, dpart] =>
+          if dpart.startsWith "docs=" then
+            match outs? (dpart.drop 5).toString with
+            | some iouts =>
+              match checkDocs repo docs iouts 0 with
+              | none => answer model
+              | some why => specFail model ("readback-" ++ why)
+            | none => badCase "impl docs"
+          else badCase "impl docs="
+        | _ => if impl.startsWith "err@" || impl.startsWith "panic@" then answer model else badCase "impl shape"
+    | _, _, _, _ => badCase "shard fields"
+  | _ => badCase "op"
+
+def main : IO Unit := runLines handle
 end ZoektModel.C09
